@@ -3,7 +3,7 @@ use super::closure::*;
 use crate::engine::*;
 use crate::hist::*;
 
-fn run(c: &Hist, obs: &mut Obs) -> Result<(), String> {
+pub fn run_case(c: &Hist, obs: &mut Obs) -> Result<(), String> {
     run_closure(c, Dir::Complete, obs)
 }
 
@@ -12,7 +12,7 @@ pub fn property(tier: Tier) -> Property {
         id: "C02", scale: tier.pick(5, 2),
         stages: super::c01::stages(
             tier,
-            run,
+            run_case,
             "same generator as C01; non-trivial = the closure derives an equality between terms that were not the operands of a union, or a redundancy, or a symmetry; distinct by rendered history",
         ),
         assumptions: vec!["every equality the ground closure derives is a consequence of the asserted equations (sound for any pool size)".into()],
